@@ -581,6 +581,77 @@ def main():
     for short, fname in body_parsers:
         attempt(["body_reads_" + short], (lambda f=fname, sh=short: {"body_reads_" + sh: t_body_reads(f)}))
 
+    # what the encoder writes behind the header, per kind of response: the put calls of each arm
+    # of `encode_data` (what the connection sends) and of `write_data` (the Encoder impl), in
+    # the order executed. `if !x.is_empty() { put_slice(&x[..]) }` writes x: nothing when empty.
+    # The model has six kinds of response; which variant of BinaryResponse is which kind is
+    # fixed here, every variant of the enum has to be covered by an arm, and the variants of
+    # one kind have to write the same.
+    resp_kind = {"Error": 1, "Get": 2, "GetQuietly": 2, "GetKey": 2, "GetKeyQuietly": 2,
+                 "Set": 3, "Add": 3, "Replace": 3, "Append": 3, "Prepend": 3, "Noop": 3, "Delete": 3,
+                 "Flush": 3, "Stats": 3, "Quit": 4, "Version": 5, "Increment": 6, "Decrement": 6}
+    wfield_ids = {"error": 1, "flags": 2, "key": 3, "value": 4, "version": 5, "counter": 6}
+
+    def t_writes(fname):
+        body = rsexpr.strip_comments(rsexpr.fn_body(codec, fname))
+        mm = re.search(r"\bmatch\s+msg\s*\{", body)
+        if not mm:
+            raise RsError("%s: `match msg` not found" % fname)
+        end = rsexpr.match_brace(body, mm.end() - 1)
+        arms_txt = body[mm.end():end - 1]
+        m_enum = re.search(r"pub enum BinaryResponse\s*\{(.*?)\n\}", codec, re.S)
+        enum_variants = re.findall(r"^\s*([A-Z][A-Za-z]*)\s*\(", m_enum.group(1), re.M) if m_enum else []
+        if sorted(enum_variants) != sorted(resp_kind):
+            raise RsError("BinaryResponse has variants %s, the model knows %s" % (sorted(enum_variants), sorted(resp_kind)))
+        per_variant = {}
+        i = 0
+        while True:
+            ma = re.compile(r"\s*((?:\|?\s*BinaryResponse::[A-Za-z]+\(\s*_?[a-z]+\s*\)\s*)+)=>\s*\{").match(arms_txt, i)
+            if not ma:
+                if arms_txt[i:].strip(" \n,"):
+                    raise RsError("%s: cannot parse the arm at %r" % (fname, arms_txt[i:i + 40]))
+                break
+            close = rsexpr.match_brace(arms_txt, ma.end() - 1)
+            stmts = arms_txt[ma.end():close - 1]
+            variants = re.findall(r"BinaryResponse::([A-Za-z]+)\(\s*(_?[a-z]+)\s*\)", ma.group(1))
+            writes = []
+            rest = stmts.strip()
+            while rest:
+                m1 = re.match(r"dst\.put_(u8|u16|u32|u64)\(\s*[a-z_]+\.([a-z_]+)\s*\)\s*;", rest)
+                m2 = re.match(r"dst\.put(?:_slice)?\(\s*&?\s*[a-z_]+\.([a-z_]+)\s*(?:\.as_bytes\(\)|\.clone\(\)|\[\.\.\])?\s*\)\s*;", rest)
+                m3 = re.match(r"if\s*!\s*[a-z_]+\.([a-z_]+)\.is_empty\(\)\s*\{\s*dst\.put(?:_slice)?\(\s*&?\s*[a-z_]+\.([a-z_]+)\s*(?:\[\.\.\]|\.clone\(\))?\s*\)\s*;\s*\}", rest)
+                if m1:
+                    w = rsexpr.BITS[m1.group(1)] // 8
+                    f = m1.group(2)
+                    if f == "value" and w == 8:
+                        f = "counter"
+                    writes.append((f, "WrU %d" % w)); rest = rest[m1.end():].strip()
+                elif m2:
+                    writes.append((m2.group(1), "WrBytes")); rest = rest[m2.end():].strip()
+                elif m3 and m3.group(1) == m3.group(2):
+                    writes.append((m3.group(1), "WrBytes")); rest = rest[m3.end():].strip()
+                else:
+                    raise RsError("%s: cannot parse the write %r" % (fname, rest[:50]))
+            for f, _ in writes:
+                if f not in wfield_ids:
+                    raise RsError("%s: write of unknown field %s" % (fname, f))
+            for v, _ in variants:
+                if v in per_variant:
+                    raise RsError("%s: variant %s in two arms" % (fname, v))
+                per_variant[v] = writes
+            i = close
+        if sorted(per_variant) != sorted(resp_kind):
+            raise RsError("%s: arms cover %s" % (fname, sorted(per_variant)))
+        per_kind = {}
+        for v, k in resp_kind.items():
+            if k in per_kind and per_kind[k] != per_variant[v]:
+                raise RsError("%s: responses of kind %d do not all write the same" % (fname, k))
+            per_kind[k] = per_variant[v]
+        return per_kind
+
+    for fname in ("encode_data", "write_data"):
+        attempt([fname], (lambda f=fname: {f: t_writes(f)}))
+
     L = []
     A = L.append
     A("(* GENERATED by tools/gen_tables.py from the Rust sources — do not edit. *)")
@@ -707,6 +778,16 @@ def main():
             A("(* not translated: %s *)" % untranslated[item].replace("*)", "* )").replace("(*", "( *"))
             A("Definition src_%s_ok : bool := false." % item)
             A("Definition src_%s : list (N * bread) := []." % item)
+    A("(* what the encoder writes behind the header, per kind of response (1 error, 2 get, 3 plain, 4 quit, 5 version, 6 counter): (field, write); fields: " + ", ".join("%d %s" % (v, k) for k, v in wfield_ids.items()) + " *)")
+    for item in ("encode_data", "write_data"):
+        if item in gen:
+            A("Definition src_%s_ok : bool := true." % item)
+            A("Definition src_%s : list (N * list (N * bwrite)) := [%s]." % (item, "; ".join(
+                "(%d, [%s])" % (k, "; ".join("(%d, %s)" % (wfield_ids[f], w) for f, w in gen[item][k])) for k in sorted(gen[item]))))
+        else:
+            A("(* not translated: %s *)" % untranslated[item].replace("*)", "* )").replace("(*", "( *"))
+            A("Definition src_%s_ok : bool := false." % item)
+            A("Definition src_%s : list (N * list (N * bwrite)) := []." % item)
     A("")
     text = "\n".join(L)
     out = os.path.normpath(OUT)
